@@ -39,6 +39,7 @@ type chanView struct {
 }
 
 type viewRec struct {
+	Trk   bool            `json:"trk"`
 	Me    string          `json:"me"`
 	Nicks json.RawMessage `json:"nicks"`
 	Chans json.RawMessage `json:"chans"`
@@ -144,6 +145,14 @@ func (r *rig) apply(e *edge, check bool) string {
 	switch o.Ev {
 	case "clientnick":
 		r.s.C.Nick(strings.TrimPrefix(o.Expect[0], "NICK "))
+	case "trackoff":
+		if r.tracking {
+			r.s.C.DisableStateTracking()
+		}
+	case "trackon":
+		if r.tracking {
+			r.s.C.EnableStateTracking()
+		}
 	default:
 		if len(o.Lines) > 0 {
 			r.s.Srv.SendLines(o.Lines...)
@@ -186,7 +195,12 @@ func (r *rig) apply(e *edge, check bool) string {
 		msgs = append(msgs, fmt.Sprintf("C17: Me().Nick = %q but the server uses %q (event %s)", me.Nick, wantNick, o.Ev))
 	}
 	// (c) C13: the tracked state
-	if r.tracking && me != nil {
+	if r.tracking && !e.View.Trk && r.s.C.StateTracker() != nil {
+		msgs = append(msgs, "DRIFT: StateTracker() is not nil although state tracking was disabled")
+	}
+	if r.tracking && e.View.Trk && r.s.C.StateTracker() == nil {
+		msgs = append(msgs, "DRIFT: StateTracker() is nil although state tracking is enabled")
+	} else if r.tracking && e.View.Trk && me != nil {
 		st := r.s.C.StateTracker()
 		gotV, err := trk.ViewOfTracker(st, universeNicks, universeChans)
 		if err != nil {
